@@ -116,8 +116,8 @@ def gen_labware(rng, n=None, big=False):
         if mn >= mx:
             mn = Fraction(0)
         if kind == "plate":
-            rows = rng.choice([1, 2, 3, 4, 8] if not big else [8, 16, 26])
-            cols = rng.choice([1, 2, 3, 4, 6] if not big else [12, 24, 99, 100])
+            rows = rng.choice([1, 2, 3, 4, 7, 8] if not big else [8, 16, 26])
+            cols = rng.choice([1, 2, 3, 4, 6, 7] if not big else [12, 24, 99, 100])
             mode = rng.choice(["none", "scalar", "list", "2d", "2d"])
             fill = 0.7
             if big:
@@ -143,7 +143,7 @@ def gen_labware(rng, n=None, big=False):
                     spec["names"] = nm
         else:
             vrows = rng.choice([1, 2, 4, 8] if not big else [8, 16, 26])
-            cols = rng.choice([1, 1, 2, 3] if not big else [4, 12, 24])
+            cols = rng.choice([1, 1, 2, 3, 7] if not big else [4, 12, 24])
             mode = rng.choice(["scalar", "list", "list"])
             if mode == "scalar":
                 init = {"shape": "scalar", "v": fs(dy(rng, mx))}
@@ -476,9 +476,52 @@ def gen_drain_program(rng):
     return {"dev": "evo", "wl": wl, "labware": specs, "ops": ops, "family": "drain"}
 
 
+def gen_dtype_program(rng):
+    """initial volumes handed over as numpy arrays of a narrower dtype (float32 / float16 / int64, values exactly representable
+    in it), limits and volumes that need the full binary64 precision: the tracking must not inherit the argument's dtype"""
+    rows, cols = rng.choice([(2, 3), (2, 2), (3, 2)])
+    eps = Fraction(1, 1 << rng.choice([26, 30, 34]))
+    mx = Fraction(rng.choice([100, 250, 300])) + rng.choice([0, 1]) * eps
+    mn = Fraction(rng.choice([0, 5, 10])) + rng.choice([0, 1]) * eps
+    dtype = rng.choice(["float32", "float32", "float16", "int64"])
+    vols = [[fs(rng.choice([40, 50, 60, 70, 80, 90])) for _ in range(cols)] for _ in range(rows)]
+    plate = {"kind": "plate", "name": rng.choice(["plate", "MTP"]), "rows": rows, "cols": cols, "min": fs(mn), "max": fs(mx),
+             "init": {"shape": "2d", "v": vols}, "init_dtype": dtype}
+    tr = {"kind": "trough", "name": "waste", "vrows": 2, "cols": 2, "min": "0", "max": "100000",
+          "init": {"shape": "list", "v": ["1000", "2000"]}, "init_dtype": rng.choice(["float32", "int64"])}
+    specs = [plate, tr]
+    wl = {"max_volume": "950", "max_int": False, "auto_split": True, "diti_mode": False}
+    sh = Shadow(specs)
+    ops = []
+    ws = sh.wells(0)
+    for w in rng.sample(ws, min(4, len(ws))):
+        kind = rng.choice(["fill", "drain", "add", "transfer_in"])
+        if kind == "fill":      # exactly up to max_volume
+            v = mx - sh.vol(0, w)
+            ops.append({"op": "add", "lw": 0, "wells": {"shape": "list", "v": [w]}, "vols": {"shape": "list", "v": [fs(v)]}, "label": "fill"})
+            sh.add(0, [w], [v])
+        elif kind == "drain":   # exactly down to min_volume, through the worklist
+            v = sh.vol(0, w) - mn
+            ops.append({"op": "transfer", "src": 0, "swells": {"shape": "list", "v": [w]}, "dst": 1, "dwells": {"shape": "list", "v": ["A01"]},
+                        "vols": {"shape": "list", "v": [fs(v)]}, "label": "drain", "ws": 1})
+            sh.remove(0, [w], [v]); sh.add(1, ["A01"], [v])
+        elif kind == "add":
+            v = Fraction(rng.choice([1, 3, 7])) + eps
+            ops.append({"op": "add", "lw": 0, "wells": {"shape": "list", "v": [w]}, "vols": {"shape": "list", "v": [fs(v)]}, "label": None})
+            sh.add(0, [w], [v])
+        else:
+            v = Fraction(rng.choice([2, 5])) + eps
+            ops.append({"op": "transfer", "src": 1, "swells": {"shape": "list", "v": ["B02"]}, "dst": 0, "dwells": {"shape": "list", "v": [w]},
+                        "vols": {"shape": "list", "v": [fs(v)]}, "label": "in", "ws": 1})
+            sh.remove(1, ["B02"], [v]); sh.add(0, [w], [v])
+    return {"dev": "evo", "wl": wl, "labware": specs, "ops": ops, "family": "dtype"}
+
+
 def gen_program(rng, family, nops=None):
     if family == "drain":
         return gen_drain_program(rng)
+    if family == "dtype":
+        return gen_dtype_program(rng)
     specs = gen_labware(rng, big=(family == "big"))
     wl = gen_wl(rng)
     sh = Shadow(specs)
